@@ -145,6 +145,11 @@ pub fn client0_hash(t: &Trace) -> u64 {
     let mut recs: Vec<&Rec> = t.recs.iter().filter(|r| r.th == 0).collect();
     recs.sort_by_key(|r| r.idx);
     for r in recs {
+        // the first operation of the "clear issued by the client" differential pairs is the clear
+        // itself on one side and a no-op on the other: only that it returned is compared
+        if r.idx == 0 && matches!(r.op, crate::model::Op::Clear | crate::model::Op::Settle) {
+            continue;
+        }
         (r.idx, &r.res).hash(&mut h);
     }
     let mine = |v: &Val| v.seq / 1000 == 1;
